@@ -31,6 +31,10 @@ def gen_ops(ctx, n):
     rng = ctx.rng
     qs, rs, ds = pools(rng)
     ops = [["inf"]]
+    for w in (0, 1, 2):
+        for _ in range(12):
+            q, r = gen_time(rng, qs, rs)
+            ops.append(["cmpinf", f2b(q), f2b(r), w])
     for _ in range(n):
         k = rng.random()
         if k < 0.4:
@@ -93,6 +97,11 @@ def case_term(op, res):
         return "CCmp %d %d %d %d %s" % (op[1], op[2], op[3], op[4], C.coq_list([C.coq_bool(x) for x in res]))
     if k == "inf":
         return "CInf %d %d" % (res[0], res[1])
+    if k == "cmpinf":
+        INF = 0x7FF0000000000000
+        a = (op[1], op[2]) if op[3] == 0 else (INF, INF)
+        return "CCmp %d %d %d %d %s" % (a[0], a[1], INF, INF, C.coq_list([C.coq_bool(x) for x in res[:6]])) \
+            + ";\n" + "CCmp %d %d %d %d %s" % (INF, INF, a[0], a[1], C.coq_list([C.coq_bool(x) for x in res[6:]]))
     if k == "heap":
         return "CHeap %s %s" % (C.coq_list(["(%d, %d)" % (q, r) for q, r in op[1]]),
                                 C.coq_list(["%d%%nat" % i for i in res]))
@@ -171,6 +180,15 @@ def oracle(op, res):
         return None if list(res) == exp else "comparison %r != exact %r" % (res, exp)
     if k == "inf":
         return None if b2f(res[0]) == b2f(res[1]) == math.inf else "inf constant"
+    if k == "cmpinf":
+        q, r = b2f(op[1]), b2f(op[2])
+        if op[3] == 0 and not (normalised(q, r) and q <= 2.0 ** 52):
+            return None
+        if op[3] == 0:     # finite normalised time vs the singleton: smaller, and the singleton larger
+            exp = [0, 1, 1, 0, 1, 0, 0, 1, 0, 1, 0, 1]
+        else:              # an infinite time however built equals the singleton
+            exp = [1, 0, 0, 0, 1, 1, 1, 0, 0, 0, 1, 1]
+        return None if list(res) == exp else "comparison with the module-level inf: %r != exact %r" % (res, exp)
     if k == "heap":
         vals = [Fr(b2f(q)) + Fr(b2f(r)) for q, r in op[1]]
         if sorted(res) != list(range(len(vals))):
@@ -247,8 +265,9 @@ def run(ctx, ops_override=None):
     for i, (op, r) in enumerate(zip(ops + mono, res)):
         t = case_term(op, r)
         if t is not None:
-            terms.append(t)
-            idxmap.append(i)
+            for tt in t.split(";\n"):
+                terms.append(tt)
+                idxmap.append(i)
     neval, bad, nfiles, nok, err = C.eval_cases(ctx, "c14", HEADER, terms, "check_tcase", "tcase", per_file=1000)
     if err:
         broken.append("correspondence case files did not evaluate: " + err[-600:])
